@@ -268,6 +268,27 @@ pub fn worker(tier: &str, k: usize, n: usize, ctx: &mut Ctx) {
       }
     }
   }
+  // sorted but not strictly: a second segment at the same position (the later one decides)
+  for text in texts(tier) {
+    let (mut pos, end) = model::positions(text);
+    pos.push(end);
+    let lists = trees::seg_lists(&pos, &KINDS, if tier == "thorough" { 3 } else { 2 });
+    for segs in lists.into_iter() {
+      if segs.is_empty() || !st.mine() {
+        continue;
+      }
+      for i in 0..segs.len() {
+        for k in KINDS {
+          let mut dup = segs.clone();
+          dup.insert(i + 1, Seg { gl: segs[i].gl, gc: segs[i].gc, orig: k });
+          let m = trees::map_spec(dup, true);
+          ctx.states += 1;
+          ctx.count("maps_with_two_segments_at_one_position");
+          c08_case(ctx, text, &m);
+        }
+      }
+    }
+  }
   crate::clear_current_case();
 }
 
@@ -276,7 +297,7 @@ pub fn bounds(tier: &str) -> Value {
     "engine": "E1 trees restricted to SourceMapSource / default-helper leaves",
     "texts": texts(tier),
     "max_segments": max_segs(tier),
-    "segment_positions": "every character position and the end-of-text position, strictly increasing",
+    "segment_positions": "every character position and the end-of-text position, strictly increasing; plus every list of <= 2 (thorough 3) segments with one position doubled (each kind for the second segment)",
     "segment_kinds": "unmapped 1-field; 4-field into source 0 / 1; 5-field with name 0 / 1",
     "source_roots": ["<none>", "", "r", "r/"],
     "modes": "columns x final in {T,F}^2 directly; map(true)/map(false) of Concat[sms, Raw('')]; same (T, M) through stream_chunks_default (event-for-event equal)",
